@@ -759,11 +759,15 @@ def _class_private_unmangler(code) -> Callable[[str], str]:
     in, when python tells us (the class name may itself contain `__`)."""
     scopes = getattr(code, "co_qualname", "").split(".")
     prefixes = ["_" + scope.lstrip("_") for scope in scopes if scope.lstrip("_").isidentifier()]
+    knows_scopes = hasattr(code, "co_qualname")
 
     def plain(n: str) -> str:
         for prefix in prefixes:
             if n.startswith(prefix + "__"):
                 return n[len(prefix) :]
+        if knows_scopes:
+            # `_a__x` written outside any class `a` is a name of its own
+            return n
         return n[n.index("__") :] if n.startswith("_") and not n.startswith("__") and "__" in n else n
 
     return plain
@@ -798,13 +802,16 @@ def _code_instructions(code, plain: Callable[[str], str] = lambda n: n) -> List[
     setup_only |= {"COPY_FREE_VARS", "MAKE_CELL"}
     same_thing = {"LOAD_METHOD": "LOAD_ATTR", "CALL_METHOD": "CALL", "CALL_FUNCTION": "CALL"}
     jumps = set(dis.hasjrel) | set(dis.hasjabs)
+    instructions = [i for i in dis.get_instructions(code) if i.opname not in setup_only]
+    # Where a jump goes is told by the number of the instruction it lands on (the first one
+    # that is kept at or after its target): byte offsets depend on how calls are set up.
+    offsets = [i.offset for i in instructions]
     result: List[Any] = []
-    for ins in dis.get_instructions(code):
-        if ins.opname in setup_only:
-            continue
+    for ins in instructions:
         name = same_thing.get(ins.opname, ins.opname)
         if ins.opcode in jumps:
-            result.append((name,))
+            target = ins.argval if isinstance(ins.argval, int) else -1
+            result.append((name, sum(1 for o in offsets if o < target)))
         elif hasattr(ins.argval, "co_code"):
             result.append((name, _code_instructions(ins.argval, plain)))
         elif isinstance(ins.argval, str):
